@@ -166,7 +166,7 @@ def main():
                     if key in done:
                         continue
                     t0 = time.time()
-                    env = dict(os.environ, VOTEKIT_SRC=dst + "/src")
+                    env = dict(os.environ, VOTEKIT_SRC=dst + "/src", VERIF_OUT=dst + "/out", VERIF_EVID=dst + "/evidence")
                     try:
                         r = subprocess.run(["/verif/check", c], env=env, capture_output=True, text=True, timeout=1500)
                         rc = r.returncode
@@ -179,7 +179,6 @@ def main():
                     with open(out, "a") as f:
                         f.write(json.dumps(rec) + "\n")
                     print(json.dumps({k: rec[k] for k in ("file", "line", "kind", "before", "after", "check", "exit")}), flush=True)
-                    subprocess.run(["git", "-C", "/verif", "checkout", "--", "evidence/%s.json" % c], capture_output=True)
                 open(os.path.join(dst, "src/votekit", rel), "w").write(orig)
     finally:
         shutil.rmtree(dst, ignore_errors=True)
